@@ -29,6 +29,7 @@ void ll_undef_bytes(ptr_t p, u64 n);
 u8 ll_divzero_u8(void); u16 ll_divzero_u16(void); u32 ll_divzero_u32(void); u64 ll_divzero_u64(void); u128 ll_divzero_u128(void);
 float floorf(float); float ceilf(float); float truncf(float); float roundf(float); float fabsf(float); float rintf(float); float nearbyintf(float); float copysignf(float,float); float fminf(float,float); float fmaxf(float,float); float sqrtf(float); float fmodf(float,float); float fmaf(float,float,float); float roundevenf(float);
 double floor(double); double ceil(double); double trunc(double); double round(double); double fabs(double); double rint(double); double nearbyint(double); double copysign(double,double); double fmin(double,double); double fmax(double,double); double sqrt(double); double fmod(double,double); double fma(double,double,double); double roundeven(double);
+long lrintf(float); long lrint(double); long long llrintf(float); long long llrint(double); long lroundf(float); long lround(double); long long llroundf(float); long long llround(double); float remainderf(float,float); double remainder(double,double); float fdimf(float,float); double fdim(double,double);
 void ll_memcpy(ptr_t d, ptr_t s, u64 n); void ll_memmove(ptr_t d, ptr_t s, u64 n); void ll_memset(ptr_t d, u8 c, u64 n);
 #define DECLBITS(B,T) T ll_ctpop_##B(T x); T ll_ctlz_##B(T x); T ll_cttz_##B(T x); T ll_fshl_##B(T a,T b,T s); T ll_fshr_##B(T a,T b,T s); \
   T ll_uadd_sat_##B(T a,T b); T ll_usub_sat_##B(T a,T b); T ll_sadd_sat_##B(T a,T b); T ll_ssub_sat_##B(T a,T b);
